@@ -437,6 +437,19 @@ def assembly(cx, rep, seg, mid):
                 bad = None
                 for c in conds:
                     op, lhs, rhs = c[1], c[2], c[3]
+                    if iv not in set(subterms(c)):
+                        # a test on the number of knots alone (`interior.is_empty()`): decided by N ≥ 3
+                        from .panics import entails as _entails
+                        from ..terms import mk_not as _mk_not
+                        f3 = {('icmp', 'ge', N, ('ic', 3))}
+                        if _entails(f3, c):
+                            asm[c] = True
+                            continue
+                        if _entails(f3, _mk_not(c)):
+                            asm[c] = False
+                            continue
+                        bad = c
+                        break
                     dl = nfc(lhs) - nfc(iv)
                     rs = int_simplify(rhs, nfc, {N: 3})
                     dr = nfc(rs) - nfc(N)
@@ -479,18 +492,26 @@ def assembly(cx, rep, seg, mid):
                         off = int(dr.const_value())  # rhs = N + off ; compare ι + k with N + off
                         if cname == 'first':
                             # 0 + k vs N + off with N ≥ 3
-                            if op == 'lt' and k < 3 + off:
+                            if op in ('lt', 'ne') and k < 3 + off:
                                 val = True
-                            elif op == 'ge' and k < 3 + off:
+                            elif op in ('ge', 'eq') and k < 3 + off:
+                                val = False
+                            elif op == 'le' and k <= 3 + off:
+                                val = True
+                            elif op == 'gt' and k <= 3 + off:
                                 val = False
                             else:
                                 bad = c
                                 break
                         elif cname == 'middle':
                             # ι ≤ N − 3: ι + k ≤ N − 3 + k
-                            if op == 'lt' and (-3 + k) < off:
+                            if op in ('lt', 'ne') and (-3 + k) < off:
                                 val = True
-                            elif op == 'ge' and (-3 + k) < off:
+                            elif op in ('ge', 'eq') and (-3 + k) < off:
+                                val = False
+                            elif op == 'le' and (-3 + k) <= off:
+                                val = True
+                            elif op == 'gt' and (-3 + k) <= off:
                                 val = False
                             else:
                                 bad = c
